@@ -50,7 +50,7 @@ def universe():
         ('(np.float32(nan),)', (np.float32('nan'),)), ('(np.float32(1.5),)', (np.float32(1.5),)), ('np.int32(1)', np.int32(1)),
         ('3', 3), ('2', 2), ("'ab'", 'ab'), ('(None,)', (None,)), ('[[]]', [[]]), ('timedelta', datetime.timedelta(1)),
         # ints beyond the float mantissa next to the float they both round to: the order must stay transitive whatever precision cmp works in
-        ('2**53', 2 ** 53), ('2**53+1', 2 ** 53 + 1), ('2.0**53', 2.0 ** 53), ('(2**53+1,)', (2 ** 53 + 1,)), ('(2.0**53,)', (2.0 ** 53,)),
+        ('2**64', 2 ** 64), ('-2**63-1', -2 ** 63 - 1), ('2**53', 2 ** 53), ('2**53+1', 2 ** 53 + 1), ('2.0**53', 2.0 ** 53), ('(2**53+1,)', (2 ** 53 + 1,)), ('(2.0**53,)', (2.0 ** 53,)),
         # dicts whose keys are equal under cmp without being the same dictionary key (NaN objects, a date and the datetime at its midnight, big ints)
         ('{nan#1:1}', {nan1: 1}), ('{nan#2:1}', {nan2: 1}), ('{nan#2:2}', {nan2: 2}), ('{date:1}', {datetime.date(2000, 1, 1): 1}), ('{dt1:1}', {_DT1: 1}),
         ('{2**53:1}', {2 ** 53: 1}), ('{2**53+1:1}', {2 ** 53 + 1: 1}), ('{1:0}', {1: 0}), ('{1.0:0}', {1.0: 0}),
@@ -140,7 +140,7 @@ def check_cmp(case):
 
 # ------------------------------------------------------------------------------------------------ sort
 
-S = ['None', '1', '2', '1.5', 'nan', "'a'", "'b'", 'dt', '+inf', '-inf', "'aa'"]   # names; objects are built per case ('aa' is longer than 'b' but sorts before it)
+S = ['None', '1', '2', '1.5', 'nan', "'a'", "'b'", 'dt', '+inf', '-inf', "'aa'", '2**64']   # names; objects are built per case ('aa' is longer than 'b' but sorts before it)
 
 
 def _mk(name, shared_nan):
@@ -162,6 +162,8 @@ def _mk(name, shared_nan):
         return 'b'
     if name == "'aa'":
         return 'aa'
+    if name == '2**64':
+        return 2 ** 64                     # an int beyond 64 bits is an int like any other
     if name == 'dt':
         return datetime.datetime(2000, 1, 1)
     if name == '+inf':
@@ -206,7 +208,7 @@ def check_list(case):
     if case['kind'] == 'scalars':
         xs = [_mk(S[i], sh) for i in case['xs']]
         has_nan = 4 in case['xs']
-        kinds = len(set('num' if S[i] in ('1', '2', '1.5', 'nan') else S[i] for i in case['xs']))
+        kinds = len(set('num' if S[i] in ('1', '2', '1.5', 'nan', '2**64') else S[i] for i in case['xs']))
     else:
         xs = [tuple(_mk(S[i], sh) for i in t) for t in case['xs']]
         has_nan = any(4 in t for t in case['xs'])
@@ -322,6 +324,19 @@ def check_table(case):
                       [((0 if (type(x) in (int, float) and x == 1) else 1), (0 if (type(y) in (int, float) and y == 2) else 1 if (type(y) in (int, float) and y == 1) else 2))
                        for x, y in zip(a, b)]))
 
+    # ---- further columns that are called like the constructor's own parameters ('columns', 'data'): sorting keeps them
+    if n >= 1 and case['t'] == 'two':
+        out.sub()
+        try:
+            dd = dictable({'a': list(a), 'columns': ['c%d' % i for i in rid], 'data': [(i, 'x') for i in rid], 'id': list(rid)})
+            rs = dd.sort('a')
+            out.call()
+            exp_ids = _stable_order([(x,) for x in a])
+            if set(rs.keys()) != {'a', 'columns', 'data', 'id'} or list(rs['id']) != exp_ids or list(rs['columns']) != ['c%d' % i for i in exp_ids] or list(rs['data']) != [(i, 'x') for i in exp_ids]:
+                out.viol('table-sort-not-permutation', "sort('a') on a table with further columns called 'columns' and 'data' (a=%s): result columns %s ids %s" % (
+                    show(a), list(rs.keys()), list(rs.get('id', []))), spelling='constructor-named-columns')
+        except Exception as e:
+            out.viol('table-sort-raises', "sort('a') on a table with columns called 'columns' / 'data' raised %s: %s" % (type(e).__name__, e), spelling='constructor-named-columns')
     # ---- a sorted table whose key column is then overwritten in place and sorted again: the second sort sees the table as it is now
     if n >= 2 and case['t'] != 'obj':
         out.sub()
